@@ -210,6 +210,10 @@ def run(pm, ctx):
 
     # ------------------------------------------------------------------ a: index spaces via E3
     index_spaces(pm, ctx, unit, fb)
+    # scalar helper functions of the module (a gain formula written once and called three times) are expanded where they are called
+    from ..astutil import inline_straightline_calls
+    _funcs = {n.name: n for n in unit.tree.body if isinstance(n, ast.FunctionDef)}
+    f = inline_straightline_calls(f, _funcs)
 
     # ------------------------------------------------------------------ b: gains
     bundles = merge_bundles(collect_bundles(f))
@@ -385,7 +389,13 @@ def reallocation(ctx, unit, f, b, table, site):
         ctx.undecided_site("C08-b", site, f"corrective term: {e}")
         return
     c2, unknown = substitute_stocks(corr, table)
-    gsrc = norm_src(b.gain_node).replace(" ", "")
+    gnode = b.gain_node
+    if isinstance(gnode, ast.Name):
+        # a temporary holding the candidate gain: `g = refurbish + corrective_term` bound once in the function
+        ds_ = [s_ for s_ in ast.walk(f) if isinstance(s_, ast.Assign) and len(s_.targets) == 1 and isinstance(s_.targets[0], ast.Name) and s_.targets[0].id == gnode.id]
+        if len(ds_) == 1:
+            gnode = ds_[0].value
+    gsrc = norm_src(gnode).replace(" ", "")
     if gsrc not in ("refurbish+corrective_term", "corrective_term+refurbish"):
         ctx.violation("C08-b", unit.relpath, "compute_all_splits", norm_src(b.stmts[0]), "the reallocation gain is not refurbish + corrective_term",
                       line=b.stmts[0].lineno, site=site)
@@ -408,11 +418,22 @@ def reallocation(ctx, unit, f, b, table, site):
             blk = st._parent.body if st in st._parent.body else st._parent.orelse
             ks = [s for s in blk if isinstance(s, ast.Assign) and norm_src(s.targets[0]) == "(k_left, k_right)" or
                   (isinstance(s, ast.Assign) and isinstance(s.targets[0], ast.Tuple) and [norm_src(e) for e in s.targets[0].elts] == ["k_left", "k_right"])]
+            if not ks:
+                # two separate assignments k_left = ..; k_right = .. in the same block
+                sep = {norm_src(s.targets[0]): s for s in blk if isinstance(s, ast.Assign) and len(s.targets) == 1 and norm_src(s.targets[0]) in ("k_left", "k_right")}
+                if set(sep) == {"k_left", "k_right"}:
+                    pair = ast.Assign(targets=[ast.Tuple(elts=[ast.Name(id="k_left", ctx=ast.Store()), ast.Name(id="k_right", ctx=ast.Store())], ctx=ast.Store())],
+                                      value=ast.Tuple(elts=[sep["k_left"].value, sep["k_right"].value], ctx=ast.Load()), lineno=st.lineno)
+                    ks = [ast.fix_missing_locations(ast.copy_location(pair, st))]
             arms.append((st, ks[0] if ks else None, st._parent))
     okarms = len(arms) >= 3
+    if not okarms:
+        ctx.unrecognised("C08-b", site, f"{len(arms)} assignments of the reallocation pair found (expected one per case: different favourites, two mixed pairs)")
     for st, ks, parent in arms:
         terms = sorted(norm_src(x) for x in ([st.value.left, st.value.right] if isinstance(st.value, ast.BinOp) and isinstance(st.value.op, ast.Add) else []))
         if ks is None or len(terms) != 2:
+            if okarms:
+                ctx.unrecognised("C08-b", site, f"cannot pair `{norm_src(st)[:60]}` with the cluster ids it selects")
             okarms = False
             continue
         kl, kr = [norm_src(e) for e in ks.value.elts]
@@ -485,11 +506,26 @@ def trackers(ctx, unit, f):
                       "left-hand one", line=bad.lineno, site=site, detail={"expected": a[:400], "found": b[:400]})
     # consistency of the left tracker itself: (gain, k) shifted together
     t = left[0]
-    body = [norm_src(s) for s in t.body]
-    want = [ns("top_gain_left, second_gain_left = left_switch, top_gain_left"), ns("top_k_left, second_k_left = k_prime, top_k_left")]
+
+    def effect(stmts):
+        """net effect of a straight-line block of (tuple) assignments between names: {name: initial name it finally holds}; None if not of that shape"""
+        env = {}
+        for s_ in stmts:
+            if not (isinstance(s_, ast.Assign) and len(s_.targets) == 1):
+                return None
+            tg, vl = s_.targets[0], s_.value
+            ts = tg.elts if isinstance(tg, ast.Tuple) else [tg]
+            vs = vl.elts if isinstance(vl, ast.Tuple) and isinstance(tg, ast.Tuple) else [vl]
+            if len(ts) != len(vs) or not all(isinstance(x, ast.Name) for x in list(ts) + list(vs)):
+                return None
+            vals = [env.get(v_.id, v_.id) for v_ in vs]
+            for t_, v_ in zip(ts, vals):
+                env[t_.id] = v_
+        return {k_: v_ for k_, v_ in env.items() if k_ != v_}
     el = t.orelse[0] if t.orelse and isinstance(t.orelse[0], ast.If) else None
-    ok = body == want and el is not None and norm_src(el.test) == "left_switch >= second_gain_left" \
-        and [norm_src(s) for s in el.body] == ["second_gain_left = left_switch", "second_k_left = k_prime"]
+    ok = effect(t.body) == {"top_gain_left": "left_switch", "second_gain_left": "top_gain_left", "top_k_left": "k_prime", "second_k_left": "top_k_left"} \
+        and el is not None and norm_src(el.test) == "left_switch >= second_gain_left" \
+        and effect(el.body) == {"second_gain_left": "left_switch", "second_k_left": "k_prime"}
     if ok:
         ctx.ok("C08-c", "compute_all_splits: left tracker shifts (gain, cluster) pairs together")
     else:
@@ -814,35 +850,105 @@ def incremental_stocks(pm, ctx, unit, fb):
         return
     sc = scans[0]
     scan_invariant(ctx, unit, fb, sc, qn)
-    # ---- initialisation before the scan: (empty, whole leaf)
-    parent = sc._parent
-    pre = parent.body[:parent.body.index(sc)] if sc in parent.body else []
-    init = {}
-    for s_ in pre:
-        if isinstance(s_, ast.Assign) and isinstance(s_.targets[0], ast.Name):
-            init[s_.targets[0].id] = s_
+    # ---- initialisation before the scan: (empty, whole leaf) - by interpretation of the statements that run between the start of the leaf's
+    # iteration and the scan, in a small value domain {0, sigma(N^2), zero vector, sigma(N, C_b)} (hoisting a stock out of the feature loop
+    # and copying it back is the same initialisation)
     site = f"{qn}: initial stocks"
-    probs = []
-    for v, want in (("sl_square", ["0", "0.0"]), ("sl_clusters", ["np.zeros(n_clusters)"]), ("sr_clusters", ["np.zeros(n_clusters)"]), ("leaf_square", ["sr_square"])):
-        if v not in init:
-            probs.append(f"{v} is not (re)initialised for each leaf and feature")
-        elif norm_src(init[v].value) not in want:
-            probs.append(f"{v} starts as {norm_src(init[v].value)}")
-    acc = [n for n in pre if isinstance(n, ast.For)]
-    unrec = []
-    for tgt_pred, want_val, msg in ((lambda t: t == "sr_square", "Lambda[j, leaf_indices[a]]", "sr_square is not initialised to the stock of the whole leaf (sum of Lambda[j, leaf samples])"),
-                                     (lambda t: t.startswith("sr_clusters["), "omega[b, leaf_indices[a]]", "sr_clusters is not initialised to sigma(leaf, C_b)")):
-        ups = [s_ for n in acc for s_ in ast.walk(n) if isinstance(s_, ast.AugAssign) and tgt_pred(norm_src(s_.target))]
-        if not ups:
-            unrec.append(msg)
-        elif not (isinstance(ups[0].op, ast.Add) and canon_equal(ups[0].value, want_val)) or not norm_src(n := next(x for x in acc if any(y is ups[0] for y in ast.walk(x)))).count("range(n_leaf)"):
-            probs.append(msg + f" (found `{norm_src(ups[0])}`)")
-    if (not init and not acc) or (unrec and not probs):
-        ctx.unrecognised("C08-g", site, "; ".join(unrec) or "no initialisation block before the scan")
-    elif probs:
-        ctx.violation("C08-g", unit.relpath, qn, "initialisation of the running stocks", "; ".join(probs), line=sc.lineno, site=site)
+    chain = []          # enclosing loops of the scan, outermost first
+    n_ = sc
+    while getattr(n_, "_parent", None) is not None and n_._parent is not fb:
+        n_ = n_._parent
+        if isinstance(n_, ast.For):
+            chain.insert(0, n_)
+    chain = [l_ for l_ in chain if norm_src(l_.iter) in ("leaves_to_explore", "feature_subset") or True]
+    seq = []            # (statement, depth) executed before the scan within one iteration of each enclosing loop
+    cur = sc
+    for lp_ in reversed(chain):
+        body = lp_.body
+        top = next((b_ for b_ in body if b_ is cur or any(m_ is cur for m_ in ast.walk(b_))), None)
+        if top is None or top is not cur:
+            seq = None
+            break
+        seq = [(s_, len(chain) - 1 - list(reversed(chain)).index(lp_)) for s_ in body[:body.index(top)]] + (seq or [])
+        cur = lp_
+    LEAFSQ, LEAFCL, ZERO, ZVEC = "sigma(N^2)", "sigma(N, C_b)", "0", "zero vector"
+    jn = next((l_.target.id for l_ in chain if isinstance(l_.target, ast.Name) and norm_src(l_.iter) == "leaves_to_explore"), None)
+
+    def acc_loop(st):
+        """for a in range(n_leaf): v += Lambda[j, leaf_indices[a]]   /   for a in range(n_leaf): for b in range(n_clusters): v[b] += omega[b, leaf_indices[a]]
+        (either nesting order) -> (v, meaning)"""
+        if not (isinstance(st, ast.For) and isinstance(st.target, ast.Name) and len(st.body) == 1):
+            return None
+        inner = st.body[0]
+        if norm_src(st.iter) == "range(n_leaf)" and isinstance(inner, ast.AugAssign) and isinstance(inner.op, ast.Add) and isinstance(inner.target, ast.Name) \
+                and jn and canon_equal(inner.value, f"Lambda[{jn}, leaf_indices[{st.target.id}]]"):
+            return inner.target.id, LEAFSQ
+        if isinstance(inner, ast.For) and isinstance(inner.target, ast.Name) and len(inner.body) == 1 and isinstance(inner.body[0], ast.AugAssign) \
+                and isinstance(inner.body[0].op, ast.Add) and {norm_src(st.iter), norm_src(inner.iter)} == {"range(n_leaf)", "range(n_clusters)"}:
+            a_, b_ = (st.target.id, inner.target.id) if norm_src(st.iter) == "range(n_leaf)" else (inner.target.id, st.target.id)
+            up = inner.body[0]
+            if isinstance(up.target, ast.Subscript) and isinstance(up.target.value, ast.Name) and norm_src(up.target.slice) == b_ \
+                    and canon_equal(up.value, f"omega[{b_}, leaf_indices[{a_}]]"):
+                return up.target.value.id, LEAFCL
+        return None
+
+    def copy_loop(st):
+        """for b in range(n_clusters): v[b] = w[b]"""
+        if isinstance(st, ast.For) and isinstance(st.target, ast.Name) and norm_src(st.iter) == "range(n_clusters)" and len(st.body) == 1 and isinstance(st.body[0], ast.Assign):
+            a_ = st.body[0]
+            b_ = st.target.id
+            if isinstance(a_.targets[0], ast.Subscript) and isinstance(a_.value, ast.Subscript) and norm_src(a_.targets[0].slice) == b_ == norm_src(a_.value.slice) \
+                    and isinstance(a_.targets[0].value, ast.Name) and isinstance(a_.value.value, ast.Name):
+                return a_.targets[0].value.id, a_.value.value.id
+        return None
+    if seq is None or not chain:
+        ctx.unrecognised("C08-g", site, "the scan is not nested directly in the loops over the leaves and the features")
     else:
-        ctx.ok("C08-g", site, "Sl empty, Sr = the whole leaf; leaf_square = sigma(N^2)")
+        val, depth_of = {}, {}
+        innermost = len(chain) - 1
+        for st, dp in seq:
+            if isinstance(st, ast.Assign) and len(st.targets) == 1 and isinstance(st.targets[0], ast.Name):
+                v_ = st.targets[0].id
+                src_ = norm_src(st.value)
+                if src_ in ("0", "0.0"):
+                    val[v_], depth_of[v_] = [ZERO], dp
+                elif src_ in ("np.zeros(n_clusters)", "np.zeros(n_clusters, dtype=np.float64)"):
+                    val[v_], depth_of[v_] = [ZVEC], dp
+                elif isinstance(st.value, ast.Name) and st.value.id in val:
+                    val[v_], depth_of[v_] = list(val[st.value.id]), dp
+                elif v_ in ("sl_square", "sr_square", "leaf_square", "sl_clusters", "sr_clusters"):
+                    val[v_], depth_of[v_] = [f"`{src_[:40]}`"], dp
+                continue
+            al = acc_loop(st)
+            if al is not None and al[0] in val:
+                val[al[0]] = val[al[0]] + [al[1]]
+                depth_of[al[0]] = max(depth_of.get(al[0], dp), dp) if False else depth_of.get(al[0], dp)
+                continue
+            cl_ = copy_loop(st)
+            if cl_ is not None and cl_[1] in val:
+                val[cl_[0]] = [x for x in val[cl_[1]] if x != ZVEC] or [ZVEC]
+                depth_of[cl_[0]] = dp
+                continue
+
+        def meaning(v_):
+            xs = [x for x in val.get(v_, ["unset"]) if x not in (ZERO, ZVEC)]
+            return xs[0] if len(xs) == 1 else ("0" if not xs and v_ in val else "+".join(xs) if xs else "unset")
+        want = {"sl_square": "0", "sr_square": LEAFSQ, "leaf_square": LEAFSQ, "sl_clusters": "0", "sr_clusters": LEAFCL}
+        probs, unrec = [], []
+        for v_, w_ in want.items():
+            got_ = meaning(v_)
+            if got_ == "unset":
+                unrec.append(f"{v_} has no recognised initialisation before the scan")
+            elif got_ != w_:
+                probs.append(f"{v_} starts as {got_}, not {w_}")
+            elif v_ != "leaf_square" and depth_of.get(v_) != innermost:
+                probs.append(f"{v_} is not re-initialised for each feature (it carries the stocks of the previous scan)")
+        if probs:
+            ctx.violation("C08-g", unit.relpath, qn, "initialisation of the running stocks", "; ".join(probs), line=sc.lineno, site=site)
+        elif unrec:
+            ctx.unrecognised("C08-g", site, "; ".join(unrec))
+        else:
+            ctx.ok("C08-g", site, "Sl empty, Sr = the whole leaf; leaf_square = sigma(N^2)")
     # Lambda / omega / gamma definitions
     for tgt, val, why in (("Lambda", "np.matmul(Z[:n_leaves], kernel)", "Lambda[l, s] must be the stock between leaf l and sample s"),
                           ("omega", "np.matmul(Y[:n_clusters, :n_leaves], Lambda)", "omega[k, s] must be the stock between cluster k and sample s"),
@@ -1119,13 +1225,13 @@ def controls(pm, tier):
     out = []
     unit_rel = "gemclus/tree/_utils.pyx"
 
-    def mut(find, repl, rule, name, count=1):
+    def mut(find, repl, rule, name, count=1, also=()):
         def apply(pm_):
             u = pm_.unit(PYX)
             if find not in u.src:
                 return None
             return {u.relpath: u.src.replace(find, repl, count)}
-        out.append({"name": name, "rule": rule, "apply": apply})
+        out.append({"name": name, "rule": rule, "apply": apply, "also": also})
 
     mut("2 * (sl_clusters[k] + sr_clusters[k]) / delta_size", "2 * omega[k, feature_id] / delta_size", "C08-a", "feature id used as a sample index of omega")
     mut("split_star -= 2 * (sl_square + sl_sr) / delta_size", "split_star -= (sl_square + sl_sr) / delta_size", "C08-b", "double-star cross term loses its factor 2")
@@ -1140,6 +1246,7 @@ def controls(pm, tier):
     mut("                sl_square += 2 * alpha + kernel[nu[l_split], nu[l_split]]", "                sl_square += alpha + kernel[nu[l_split], nu[l_split]]", "C08-g", "left stock misses half of the cross term")
     mut("                    elif l_prime > l_split:", "                    elif l_prime >= l_split:", "C08-g", "beta includes the diagonal term")
     mut("                    sr_clusters[a] -= omega[a, nu[l_split]]", "                    sr_clusters[a] -= omega[a, nu[l_split + 1]]", "C08-g", "right cluster stock moved by the next sample")
+    mut("                sr_square += Lambda[j, leaf_indices[a]]", "                sr_square += Lambda[k, leaf_indices[a]]", "C08-g", "right stock initialised from the row of the cluster id", also=("C08-a",))
     mut("            for l_split in range(n_leaf -1):", "            for l_split in range(min_leaf - 1, n_leaf - 1):", "C08-g", "scan starts at the first admissible cut with empty left stocks")
     mut("            for l_split in range(n_leaf -1):", "            for l_split in range(n_leaf - min_leaf - 1):", "C08-g", "scan stops one position before the last admissible cut")
     mut("                sr_square -= 2 * beta + kernel[nu[l_split], nu[l_split]]",
